@@ -267,6 +267,10 @@ pub fn main_world(world: &dyn World) -> ! {
     let argv: Vec<String> = std::env::args().collect();
     let cmd = argv.get(1).cloned().unwrap_or_default();
     let args = Args::parse(&argv[2.min(argv.len())..]);
+    // anyhow errors on ordinary rejection paths of fuel-core would capture (and, when
+    // Debug-formatted, symbolise) a backtrace each if RUST_BACKTRACE is set: ~1 s per error.
+    // SAFETY: single-threaded at this point.
+    unsafe { std::env::set_var("RUST_LIB_BACKTRACE", "0") };
     install_panic_hook();
     let code = match cmd.as_str() {
         "worker" => worker_main(world, &args),
